@@ -257,8 +257,10 @@ def run_case(w, prog, db, dbname, dialect, src=None, want_rq=True, user_names=No
             if (len(act) > len(exp) and all(n is not None for n in exp) and contained and any(x in excl for x in extras)
                     and all(x in excl or (GENERATED.match(x) and x not in user) for x in extras)):
                 sym = "excluded_columns_present"          # the exclusion had no effect on some column (SELECT * over an opaque table)
-            elif len(act) < len(exp) and None in exp and [n for n in exp if n is not None] == act:
-                sym = "exclusion_drops_unnamed"           # exactly the unnamed columns of the frame are missing
+            elif len(act) < len(exp) and None in exp and sorted(n for n in exp if n is not None) == sorted(act):
+                # exactly the unnamed columns of the frame are missing (the named ones may also come back
+                # re-ordered, which is KF-C05-8's defect of the same construct)
+                sym = "exclusion_drops_unnamed"
         o.symptoms.append(("C05", sym, "frame %r result %r" % (exp, act)))
         aligned = False
         if len(act) > len(exp) and exp and all(n is not None for n in exp) and act[:len(exp)] == exp and not m.colorder_unspec:
